@@ -16,6 +16,7 @@ CONSTANTS NInst, Vecs,      \* Vecs: set of feature vectors (sequences of intege
           Paths,            \* set of [name, kind], kind in {"npy", "npz", "raw"}
           Keys,             \* explicit npz keys tried
           MaxOps,
+          TemplateDims,     \* dimensions of zero-count template files the environment may write
           OverwriteRule     \* "documented": overwrite=False keeps other entries (the code); "inverted": canary
 
 None == [n |-> 0, sum |-> <<>>, sq |-> <<>>]      \* "no statistics"
@@ -70,9 +71,11 @@ AccTensor(i, vs) ==
 FirstUnused(entries) == LET used == {e.key : e \in entries}
                             N == Cardinality(entries)
                         IN CHOOSE k \in 0..N : ("arr_" \o ToString(k)) \notin used /\ \A j \in 0..(k - 1) : ("arr_" \o ToString(j)) \in used
+\* "No accumulated statistics" is a count of zero: a fresh instance, or one loaded from an all-zero template
+Zero(D) == [n |-> 0, sum |-> [i \in 1..D |-> 0], sq |-> [i \in 1..D |-> 0]]
 Save(i, p, key, overwrite) ==
   /\ nops < MaxOps
-  /\ IF inst[i] = None
+  /\ IF inst[i].n = 0
      THEN err' = "ValueError" /\ UNCHANGED <<fs, lastSaved>>
      ELSE /\ err' = ""
           /\ lastSaved' = [lastSaved EXCEPT ![p] = inst[i]]
@@ -99,6 +102,16 @@ Load(j, p, key) ==
   /\ base' = [base EXCEPT ![j] = IF err' = "" THEN inst'[j] ELSE base[j]]
   /\ nops' = nops + 1 /\ lastOp' = [op |-> "load", ow |-> FALSE] /\ UNCHANGED <<fs, lastSaved>>
 
+\* environment: an all-zero statistics file (count 0) of dimension D is written at p with numpy's own writer
+\* (for an archive: a one-entry archive); loading it gives an instance without statistics
+Template(p, D, key) ==
+  /\ nops < MaxOps
+  /\ fs' = [fs EXCEPT ![p] = IF p.kind = "npz"
+                              THEN [kind |-> "npz", entries |-> {[key |-> IF key = "" THEN "arr_0" ELSE key, stats |-> Zero(D)]}]
+                              ELSE [kind |-> p.kind, stats |-> Zero(D)]]
+  /\ lastSaved' = [lastSaved EXCEPT ![p] = None]
+  /\ err' = "" /\ nops' = nops + 1 /\ lastOp' = [op |-> "template", ow |-> TRUE] /\ UNCHANGED <<inst, bag, base>>
+
 Init == /\ inst = [i \in 1..NInst |-> None] /\ bag = [i \in 1..NInst |-> <<>>] /\ base = [i \in 1..NInst |-> None]
         /\ fs = [p \in Paths |-> Absent] /\ err = "" /\ nops = 0 /\ lastSaved = [p \in Paths |-> None]
         /\ lastOp = [op |-> "init", ow |-> FALSE]
@@ -106,7 +119,8 @@ NAccV == \E i \in 1..NInst, v \in Vecs : AccVector(i, v)
 NAccT == \E i \in 1..NInst, v \in Vecs, w \in Vecs : Len(v) = Len(w) /\ AccTensor(i, <<v, w>>)
 NSave == \E i \in 1..NInst, p \in Paths, k \in Keys \cup {""}, ow \in BOOLEAN : Save(i, p, k, ow)
 NLoad == \E j \in 1..NInst, p \in Paths, k \in Keys \cup {""} : Load(j, p, k)
-Next == NAccV \/ NAccT \/ NSave \/ NLoad
+NTemplate == \E p \in Paths, D \in TemplateDims, k \in Keys \cup {""} : Template(p, D, k)
+Next == NAccV \/ NAccT \/ NSave \/ NLoad \/ NTemplate
 Spec == Init /\ [][Next]_vars
 
 \* C16: statistics are those of the bag of everything accumulated since the instance was created / loaded,
@@ -126,6 +140,9 @@ C17_OverwriteRule ==
   [][\A p \in Paths : (lastOp'.op = "save" /\ fs[p].kind = "npz" /\ fs'[p] # fs[p]) =>
         IF lastOp'.ow THEN Cardinality(fs'[p].entries) = 1
         ELSE \A e \in fs[p].entries : \E e2 \in fs'[p].entries : e2.key = e.key]_vars
+\* a save never stores "no statistics", and a refused save changes nothing
+C17_SavedStatsHaveData == \A p \in Paths : lastSaved[p] # None => lastSaved[p].n > 0
+C17_RefusedSaveChangesNothing == [][(lastOp'.op = "save" /\ err' = "ValueError") => UNCHANGED <<fs, inst, lastSaved>>]_vars
 C17_KeysDistinct == \A p \in Paths : fs[p].kind = "npz" =>
                       \A e1, e2 \in fs[p].entries : e1.key = e2.key => e1 = e2
 ===============================================================================
